@@ -93,7 +93,11 @@ def check(run, driver):
         n = int(rng.integers(1, 5)); L = int(rng.integers(1, 4)); T = L + 3 + int(rng.integers(0, 12))
         method = METHODS[it % 4]; info = ESTIMATORS[(it // 4) % 5]
         kind = it % 7
+        if it % 28 == 20:      # wide plain arrays: more than ten variables, so that default labels have two digits (X0 .. X10, X11, ...)
+            n = int(rng.integers(11, 14)); L = 1; T = L + 3 + int(rng.integers(0, 6))
         base = rng.integers(0, 40, size=(T, n))
+        if kind == 5 and it % 4 in (0, 1):          # a column riding on a huge offset (epoch seconds, absolute pressure): 1.7e9 +- a few units
+            base[:, 0] += 1_700_000_000
         if kind == 1 and n >= 2:
             base[:, 1] = base[:, 0]                      # duplicated column
         if kind == 2:
@@ -189,6 +193,26 @@ def check(run, driver):
         multi = max([G.in_degree(v) for v in G.nodes()] + [0])
         run.case("real-multi-parent", [info, method, T, float(arr[0, 0])], multi >= 2, sample={k_: case[k_] for k_ in case if k_ != "data"} | {"edges": G.number_of_edges(), "max_parents": multi})
         well_formed(run, case, G, names, L, 3, {"clause": "well_formed", "estimator": info})
+    # ---- flat (uniform) data under the kernel-density estimator: its raw mutual-information estimates are negative there, also for a
+    #      target with ONE parent (empty conditioning set); whatever path the value takes, the reported cmi is never a finite negative number
+    for it in range(18 if thorough else 8):
+        method = ["lasso", "information_lasso", "alternative", "standard"][it % 4]
+        n, L, T = int(rng.integers(2, 4)), 1, int(rng.integers(24, 40))
+        arr = rng.uniform(0, 1, size=(T, n))
+        arr[1:, 1] = 0.8 * arr[1:, 1] + 0.2 * arr[:-1, 0]
+        names = [f"X{i}" for i in range(n)]
+        case = {"information": "kde", "method": method, "n": n, "max_lag": L, "T": T, "n_shuffles": 4, "data": arr, "data_kind": "uniform"}
+        before = snapshot(arr)
+        try:
+            with quiet():
+                G = discover_network(arr, method=method, information="kde", max_lag=L, n_shuffles=4, alpha_forward=0.3, alpha_backward=0.3)
+        except Exception as e:  # noqa
+            run.prop_fail("valid request raises", case, {"clause": "total", "estimator": "kde"}, repr(e)); continue
+        single = sum(1 for v in G.nodes() if G.in_degree(v) == 1)
+        run.case("real-kde-flat", [method, n, T, float(arr[0, 0])], single >= 1, sample={k_: case[k_] for k_ in case if k_ != "data"} | {"edges": G.number_of_edges(), "single_parent_targets": single})
+        if snapshot(arr) != before:
+            run.prop_fail("caller's data object modified", case, {"clause": "purity", "estimator": "kde"})
+        well_formed(run, case, G, names, L, 4, {"clause": "well_formed", "estimator": "kde"})
     # ---- rejections
     good = rng.standard_normal((30, 2))
     for m in ["Standard", "", "pcmci", None, "lasso ", 3]:
